@@ -65,14 +65,14 @@ theorem Hashed.facts {lvl : K → Nat} {hc : HashCfg K V D} {t : Tree K V D}
       exact hne (by simp [Pg.content, Nd.content])
 
 /-- Every range of `pageRanges` is the range of a page of the tree. -/
-theorem mem_pageRanges {hc : HashCfg K V D} {t : Tree K V D} {r : PR K D}
+theorem mem_pageRanges2 {hc : HashCfg K V D} {t : Tree K V D} {r : PR K D}
     (hr : r ∈ pageRanges hc t) : ∃ q ∈ t.root.preorder, rangeOf hc q = some r := by
   unfold pageRanges at hr
   split at hr
   · simp at hr
   · exact List.mem_filterMap.1 hr
 
-theorem pageRanges_of_nil {hc : HashCfg K V D} {t : Tree K V D} (h : t.root.content = []) :
+theorem pageRanges_of_nil2 {hc : HashCfg K V D} {t : Tree K V D} (h : t.root.content = []) :
     pageRanges hc t = [] := by
   unfold pageRanges
   rw [h]
@@ -81,7 +81,7 @@ theorem pageRanges_of_nil {hc : HashCfg K V D} {t : Tree K V D} (h : t.root.cont
 theorem pageRanges_valid' {lvl : K → Nat} {hc : HashCfg K V D} {t : Tree K V D}
     (h : Hashed lvl hc t) : PRValid (pageRanges hc t) := by
   intro r hr
-  obtain ⟨q, hq, hrq⟩ := mem_pageRanges hr
+  obtain ⟨q, hq, hrq⟩ := mem_pageRanges2 hr
   obtain ⟨a, z, ha, hz, e1, e2, -⟩ := rangeOf_inv hc q r hrq
   obtain ⟨L, c, n, hp, -, -, hs, -⟩ := h.facts
   obtain ⟨pre, suf, e⟩ := preorder_infix t.root q hq
@@ -127,8 +127,8 @@ theorem consistent_sound (lvl : K → Nat) (hc : HashCfg K V D) (tL tP : Tree K 
     kv ∈ tL.root.content := by
   obtain ⟨g, hg, hg1, hg2⟩ := hcov
   obtain ⟨p, hp, l, hl, hgp, hh⟩ := diffWalk_good_justified _ _ b hw g hg
-  obtain ⟨P, hPm, hPr⟩ := mem_pageRanges hp
-  obtain ⟨Q, hQm, hQr⟩ := mem_pageRanges hl
+  obtain ⟨P, hPm, hPr⟩ := mem_pageRanges2 hp
+  obtain ⟨Q, hQm, hQr⟩ := mem_pageRanges2 hl
   obtain ⟨a, z, ha, hz, e1, e2, hPh⟩ := rangeOf_inv hc P p hPr
   obtain ⟨a', z', ha', hz', e1', e2', hQh⟩ := rangeOf_inv hc Q l hQr
   obtain ⟨_, _, _, _, -, -, hsP, -⟩ := hP.facts
@@ -183,7 +183,7 @@ theorem diff_trees_complete (lvl : K → Nat) (hc : HashCfg K V D) (tL tP : Tree
     refine ⟨(a.1, z.1), ?_, And.intro (hsP.pw.head_le ha hkv) (hsP.pw.le_last hz hkv)⟩
     rw [hprP] at hw
     by_cases hcL : tL.root.content = []
-    · rw [pageRanges_of_nil hcL, diffWalk_local_empty _ _ haz] at hw
+    · rw [pageRanges_of_nil2 hcL, diffWalk_local_empty _ _ haz] at hw
       simp only [Except.ok.injEq] at hw
       subst hw
       simp
@@ -258,7 +258,7 @@ theorem nfc_empty {lvl : K → Nat} {hc : HashCfg K V D} {tL tP : Tree K V D}
   obtain ⟨_, _, _, _, -, -, hsP, -⟩ := hP.facts
   obtain ⟨LP, cP, nP, hpP, d, -, -, -, -, hprP⟩ := pageRanges_decomp hP a z ha hz
   have haz : a.1 ≤ z.1 := hsP.pw.head_le ha (mem_of_getLast? hz)
-  rw [pageRanges_of_nil he, hprP] at h
+  rw [pageRanges_of_nil2 he, hprP] at h
   refine diff_ne_nil_of_walk _ _ (by simp) _ (diffWalk_local_empty _ _ haz) ?_ rfl a.1 ?_ h
   · intro r hr
     simp only [List.mem_singleton] at hr
